@@ -355,6 +355,17 @@ def generate():
             for va in ["#[educe(%s, %s)]" % (t, t), "#[educe(%s)] #[educe(%s)]" % (t, t)]:
                 vs = [("A", "tuple", [], plain_fields("tuple", 1)), ("B", "named", [va], plain_fields("named", 1))]
                 yield ("trait-twice-at-variant", {"reuseTrait", "multipleDefaultVariants"}, item("enum", "E", ["#[educe(%s)]" % educed], vs))
+    # an attribute of an educed trait at a variant, where only Debug and Default take one - also through the partner that
+    # reads it on the trait's behalf (Ord reads `PartialOrd`, PartialEq reads `Eq`, Clone reads `Copy`)
+    for educed, ts in [("PartialOrd, Ord", ["PartialOrd", "Ord"]), ("PartialEq, Eq", ["PartialEq", "Eq"]), ("Clone, Copy", ["Clone", "Copy"]),
+                       ("PartialOrd", ["PartialOrd"]), ("Ord", ["Ord"]), ("PartialEq", ["PartialEq"]), ("Hash", ["Hash"]), ("Clone", ["Clone"]),
+                       ("Hash, PartialOrd, Ord", ["PartialOrd", "Hash"])]:
+        for t in ts:
+            for va in ["#[educe(%s)]" % t, "#[educe(%s(ignore))]" % t, "#[educe(%s = false)]" % t]:
+                for vpos in (0, 1):
+                    vs = [("A", "tuple", [], plain_fields("tuple", 1))]
+                    vs.insert(vpos, ("B", "named", [va], plain_fields("named", 2)))
+                    yield ("variant-attribute-of-educed-trait", ANY, item("enum", "E", ["#[educe(%s)]" % educed], vs))
     # field-level value forms of the ordering parameters
     for t in ["Ord", "PartialOrd"]:
         for a in ["rank = x", "rank(x)", "rank = 1.5", "rank", "rank()", "method", "method = 1", "method()", "zzz", "zzz = 1", "ignore = 3", "ignore(x)", "rank = \"x\"", "rank(1, 2)"]:
